@@ -127,6 +127,8 @@ def _beh(case):
         return {'behaviour': base.Scripted(message=[('raise', 'message handler failure')])}
     if mh == 'raise_type':
         return {'behaviour': base.Scripted(message=[('raise_type',)])}
+    if mh == 'disconnect_self':
+        return {'behaviour': base.Scripted(message=[('disconnect', '$sid')])}
     return {}
 
 
@@ -173,9 +175,37 @@ def run_closing_case(impl, case, out):
         w.teardown()
 
 
+def run_self_disconnect_case(impl, case, out):
+    pkts, mode = case['pkts'], case['async_handlers']
+    w = peer.make_world(impl, server_kwargs=dict(ping_interval=INTERVAL, ping_timeout=1, async_handlers=mode), **_beh(case))
+    try:
+        sid = peer.sid_of(peer.open_polling(w))
+        if case['poll']:
+            peer.poll(w, sid)
+        r = peer.post(w, sid, '\x1e'.join(pkts))
+        w.run_until(w.now + 1.0)
+        ev = [(e[0], e[2]) for e in w.events if e[0] in ('message', 'disconnect')]
+        msgs = [e[1] for e in ev if e[0] == 'message']
+        after = [e for e in ev[[x[0] for x in ev].index('disconnect') + 1:] if e[0] == 'message'] if ('disconnect' in [x[0] for x in ev]) else []
+        if r.exc:
+            V(out, impl, 'exception_escaped', 'handler_disconnects_own_session', 'POST raised %s at %s' % (r.exc['type'], r.exc['site']), case)
+        if not mode and (after or msgs[:1] != ['first'] or len(msgs) > 1):
+            # (with background handlers the later packets may have been dispatched before the first handler ran)
+            V(out, impl, 'acted_after_end', 'handler_disconnects_own_session',
+              'the handler of the first message disconnected the session; events %r (nothing after the disconnect may be acted upon)' % (ev,), case)
+        if len([e for e in ev if e[0] == 'disconnect']) > 1:
+            V(out, impl, 'disconnect_count', 'handler_disconnects_own_session', 'events %r' % (ev,), case)
+    finally:
+        _DIGESTS.add(digest.world_digest(w))
+        _STEPS[0] += w.nstep
+        w.teardown()
+
+
 def run_post_case(impl, case, out):
     if case.get('session') == 'closing':
         return run_closing_case(impl, case, out)
+    if case.get('session') == 'self_disconnect':
+        return run_self_disconnect_case(impl, case, out)
     pkts, mode, with_poll = case['pkts'], case['async_handlers'], case['poll']
     w = peer.make_world(impl, server_kwargs=dict(ping_interval=INTERVAL, ping_timeout=1, async_handlers=mode), **_beh(case))
     try:
@@ -395,6 +425,10 @@ def run(ctx):
             for f in fseqs:
                 for sk in ('ws_only', 'upgraded'):
                     jobs.append(('ws', impl, {'pkts': f, 'async_handlers': mode, 'session': sk}))
+            # the handler of the first message disconnects its own session: nothing that follows in the body is acted upon
+            for b in (['4first', '4second'], ['4first', '4second', '4third'], ['4first', '3', '4second']):
+                for poll in (True, False):
+                    jobs.append(('post', impl, {'pkts': b, 'async_handlers': mode, 'poll': poll, 'mh': 'disconnect_self', 'session': 'self_disconnect'}))
             # every message handler call raises (an ordinary exception / a TypeError): each packet is still acted on once, in order
             for mh in ('raise', 'raise_type'):
                 for b in (['4text'], ['4text', '4text'], ['4text', '4{"k":[1,"x"]}', 'bAAEC'], ['4text', '3', '4text'], ['4text', '5', '4text'],
